@@ -1,4 +1,5 @@
 import Rivaas.Lemmas.ConfigMerge
+import Rivaas.Lemmas.ConfigSM
 /-
 C14 — Configuration merging is last-source-wins and reload is atomic.
 
@@ -703,5 +704,119 @@ theorem readerOK_model (before after seen : Kvs) (hb : DistinctKeys before ∧ W
   rcases h with rfl | rfl
   · simp [kvsEq_refl _ hb.1 hb.2]
   · simp [kvsEq_refl _ ha.1 ha.2]
+
+/-! ## 7. `Load` statement by statement: every interleaving of Loads and readers is explained by the atomic model
+
+`Model/ConfigSM.lean` runs the *program* of `Load` (`modelLoad`, ten statement groups — `Tie/C14Load.lean` proves it
+equal to the skeleton regenerated from `config/config.go` on every run) one statement group at a time, any number
+of loader and reader threads, any schedule, with an explicit `sync.RWMutex`. The atomic steps of sections 4–6
+(`Op.commit`, `Op.read`) are no longer assumed: they are derived. -/
+
+section statement_level
+open Rivaas.ConfigSM
+
+/-- **refinement**: for every schedule of statement-level steps the pointer loads of the readers returned exactly
+    what the atomic model `runSched` returns on the linearisation the run recorded (a `commit t` when loader `t`
+    returned, a `read r` when reader `r` loaded the pointer), and whenever nobody holds the write lock the shared
+    state (values **and** bound struct) is the atomic model's state after those commits. -/
+theorem sm_refines_atomic (schema : Bool) (nv : Nat) (inputs : List LoadInput) (st0 : State) (sched : List Act) :
+    let s := run modelLoad schema nv inputs (Sys.init st0) sched
+    s.seen.reverse = runSched schema nv inputs st0 s.ops.reverse [] ∧
+    (s.writer = none → s.conc = (coarse schema nv inputs st0 s.ops.reverse).1) := by
+  intro s
+  have h : Inv schema nv inputs st0 s := inv_run (inv_init schema nv inputs st0) sched
+  constructor
+  · rw [runSched_coarse, h.seen, absOf_coarse]; simp
+  · intro hw; rw [h.idle hw, absOf_coarse]
+
+/-- **readers, statement level**: whatever a `Get`/`Values()` saw at any point of any interleaving is, as a whole,
+    the initial map or the merge of the sources of one Load that had returned successfully before -/
+theorem sm_readers_see_installed (schema : Bool) (nv : Nat) (inputs : List LoadInput) (st0 : State)
+    (sched : List Act) (rm : Nat × Kvs)
+    (h : rm ∈ (run modelLoad schema nv inputs (Sys.init st0) sched).seen) :
+    rm.2 = st0.values ∨
+      ∃ i inp maps, Op.commit i ∈ (run modelLoad schema nv inputs (Sys.init st0) sched).ops ∧
+        inputs[i]? = some inp ∧ loadSources inp.srcs 0 [] = .ok maps ∧ rm.2 = mergeAll maps := by
+  have hr := (sm_refines_atomic schema nv inputs st0 sched).1
+  have hm : rm ∈ runSched schema nv inputs st0
+      (run modelLoad schema nv inputs (Sys.init st0) sched).ops.reverse [] := by
+    rw [← hr]; exact List.mem_reverse.mpr h
+  rcases readers_see_installed schema nv inputs st0 _ [] rm hm with h0 | h0 | ⟨i, inp, maps, hi, h1, h2, h3⟩
+  · cases h0
+  · exact Or.inl h0
+  · exact Or.inr ⟨i, inp, maps, List.mem_reverse.mp hi, h1, h2, h3⟩
+
+/-- what a call of `Load` returned (error stage or success) is what the atomic `load` reports on the same sources —
+    for every interleaving; by `stage_history_independent` it does not depend on what was loaded before -/
+theorem sm_result_is_load_stage (schema : Bool) (nv : Nat) (inputs : List LoadInput) (st0 : State)
+    (sched : List Act) (t : Nat) (inp : LoadInput) (r : Stage) (hin : inputs[t]? = some inp)
+    (h : ((run modelLoad schema nv inputs (Sys.init st0) sched).ls t).done = some r) (st : State) :
+    (load schema nv st inp).2 = r :=
+  ((inv_run (inv_init schema nv inputs st0) sched).loc t inp hin).res r h st
+
+/-- the state the atomic model reaches on a list of events is the initial one or what one successful Load installed -/
+theorem lemma_coarse_state (schema : Bool) (nv : Nat) (inputs : List LoadInput) (st : State) (ops : List Op) :
+    (coarse schema nv inputs st ops).1 = st ∨
+      ∃ i inp st', Op.commit i ∈ ops ∧ inputs[i]? = some inp ∧ (load schema nv st' inp).2 = .ok ∧
+        (coarse schema nv inputs st ops).1 = (load schema nv st' inp).1 := by
+  induction ops generalizing st with
+  | nil => exact Or.inl rfl
+  | cons op rest ih =>
+    cases op with
+    | read r =>
+      simp only [coarse]
+      rcases ih st with h | ⟨i, inp, st', hi, h1, h2, h3⟩
+      · exact Or.inl h
+      · exact Or.inr ⟨i, inp, st', List.mem_cons_of_mem _ hi, h1, h2, h3⟩
+    | commit j =>
+      simp only [coarse]
+      cases hj : inputs[j]? with
+      | none =>
+        simp only []
+        rcases ih st with h | ⟨i, inp, st', hi, h1, h2, h3⟩
+        · exact Or.inl h
+        · exact Or.inr ⟨i, inp, st', List.mem_cons_of_mem _ hi, h1, h2, h3⟩
+      | some inpj =>
+        simp only []
+        rcases ih (load schema nv st inpj).1 with h | ⟨i, inp, st', hi, h1, h2, h3⟩
+        · by_cases hok : (load schema nv st inpj).2 = .ok
+          · exact Or.inr ⟨j, inpj, st, List.mem_cons_self .., hj, hok, h⟩
+          · rw [load_failure_atomic schema nv st inpj hok] at h ⊢; exact Or.inl h
+        · exact Or.inr ⟨i, inp, st', List.mem_cons_of_mem _ hi, h1, h2, h3⟩
+
+/-- **no mixture of two Loads, statement level**: whenever no Load is inside its locked region, values and bound
+    struct are the initial ones, or both stem from one and the same successful Load (its merged sources, and —
+    with a binding — the struct a fresh `Config` decodes from them: `load_success_values`, `bound_is_fresh`) -/
+theorem sm_quiescent_consistent (schema : Bool) (nv : Nat) (inputs : List LoadInput) (st0 : State)
+    (sched : List Act) (hw : (run modelLoad schema nv inputs (Sys.init st0) sched).writer = none) :
+    (run modelLoad schema nv inputs (Sys.init st0) sched).conc = st0 ∨
+      ∃ i inp maps, Op.commit i ∈ (run modelLoad schema nv inputs (Sys.init st0) sched).ops ∧
+        inputs[i]? = some inp ∧ loadSources inp.srcs 0 [] = .ok maps ∧
+        (run modelLoad schema nv inputs (Sys.init st0) sched).conc.values = mergeAll maps ∧
+        (∀ fresh, inp.bind = some (.ok fresh) →
+          (run modelLoad schema nv inputs (Sys.init st0) sched).conc.bound = fresh) := by
+  have hc := (sm_refines_atomic schema nv inputs st0 sched).2 hw
+  rcases lemma_coarse_state schema nv inputs st0
+      (run modelLoad schema nv inputs (Sys.init st0) sched).ops.reverse with h | ⟨i, inp, st', hi, h1, h2, h3⟩
+  · exact Or.inl (hc.trans h)
+  · obtain ⟨maps, hm, hv⟩ := load_success_values schema nv st' inp h2
+    refine Or.inr ⟨i, inp, maps, List.mem_reverse.mp hi, h1, hm, ?_, ?_⟩
+    · rw [hc, h3, hv]
+    · intro fresh hb; rw [hc, h3]; exact bound_is_fresh schema nv st' inp fresh hb h2
+
+/-- not vacuous: two loaders and a reader, interleaved statement by statement — the second loader reads its sources
+    and validates while the first holds the lock, the reader is admitted between the two locked regions -/
+example :
+    let inputs : List LoadInput := [⟨[.ok [("a".toList, .leaf "s:one".toList)]], none, []⟩,
+                                    ⟨[.ok [("a".toList, .leaf "s:two".toList)]], none, []⟩]
+    let s := run modelLoad false 0 inputs (Sys.init ⟨[("a".toList, .leaf "s:old".toList)], []⟩)
+      ([.loader 0, .loader 0, .loader 0, .loader 0, .loader 0, .reader 0, .loader 1, .loader 1, .loader 1, .loader 1,
+        .loader 1, .loader 0, .loader 0, .loader 0, .loader 0, .loader 0, .reader 0, .reader 0, .reader 0,
+        .loader 1, .loader 1, .loader 1, .loader 1, .loader 1, .loader 1] : List Act)
+    (s.ops.reverse, s.seen.map (·.1), s.writer, (s.ls 0).done, (s.ls 1).done) =
+      ([.commit 0, .read 0, .commit 1], [0], none, some .ok, some .ok) := by
+  decide
+
+end statement_level
 
 end Rivaas.C14
